@@ -382,9 +382,13 @@ LEVEL_TEXT = ("Lean 4 theorems (daily/billing): on the executable model of _pred
               "the routed sub-model at the row's temperature — a function of temperature, calendar and the stored model only; two rows "
               "with equal weather get equal predictions whatever their usage cells and whether or not a usage column exists; usage can only "
               "remove a prediction. For the hourly and CalTRACK families the numeric cores are parameters: non-interference is established "
-              "by paired public predict() runs (oracle), not by proof — partial for those families.")
+              "by paired public predict() runs (oracle), not by proof — partial for those families. T1 (all five model classes): every statement on a "
+              "predict path that mentions the usage column is re-extracted from the source on every run (Gen/UsageReads) and proved equal to a frozen, "
+              "reviewed list with the role of each site (mask, row filter, aggregation into itself, fit-only, matching of calendar cells the baseline "
+              "never saw, CalTRACK uncertainty): theorem C05_src_usage_reads_are_the_reviewed_ones.")
 LEVEL_NOTE = ("Trusted: Lean kernel + standard axioms; hand model of the frame assembly validated by T2; for hourly/CalTRACK only the "
               "paired-run oracle speaks (the feature pipeline and ElasticNet/WLS are not modelled); hourly premise: the baseline covers "
               "every calendar month and weekday (the synthetic year does).")
-TECHNIQUE = "Lean 4 proof (non-interference on the daily/billing frame model) + paired-run differential oracle for all four families"
+TECHNIQUE = ("Lean 4 proof (non-interference on the daily/billing frame model; the statements that touch the usage column on every predict path, "
+             "re-extracted from the source on every run, are proved to be exactly the reviewed list) + paired-run differential oracle for all four families")
 ASSUMPTIONS = ["routing reads the calendar only (C13)", "hourly and CalTRACK numeric cores are external parameters (partial)"]
